@@ -250,6 +250,8 @@ func init() {
 			"service": {kind: "multieq", fields: []string{"PeerName", "ServiceName"}, lowers: []bool{true, true}, argFields: []string{"PeerName", "Value"}}}})
 	addTable(&tableSpec{name: "coordinates", rowPkg: structsPkg, rowType: "Coordinate", keyFields: []string{"Node", "Segment"}, keyLower: []bool{true, true},
 		indexes: map[string]indexSpec{"node": {kind: "multieq", fields: []string{"Node"}, lowers: []bool{true}, argFields: []string{"Value"}}}})
+	addTable(&tableSpec{name: "peering", rowPkg: consulMod + "/proto/private/pbpeering", rowType: "Peering", keyField: "ID", lower: true})
+	addTable(&tableSpec{name: "peering-trust-bundles", rowPkg: consulMod + "/proto/private/pbpeering", rowType: "PeeringTrustBundle", keyField: "PeerName", lower: true})
 	addTable(&tableSpec{name: "config-entries", ifaceRow: true, ifacePkg: structsPkg, ifaceType: "ConfigEntry", ifaceKeyMeth: []string{"GetKind", "GetName"},
 		keyLower: []bool{true, true}, altPkg: consulMod + "/agent/configentry", altType: "KindName", altFields: []string{"Kind", "Name"}})
 	addTable(&tableSpec{name: "connect-intentions", rowPkg: structsPkg, rowType: "Intention", keyField: "ID", lower: true,
